@@ -577,8 +577,9 @@ func (cx *Ctx) checkIDs(r *Report, vf *VFlow, minSinks int) {
 		case l == "ext:uuid.New#0":
 		case strings.HasPrefix(l, "const:"):
 			f := strings.TrimPrefix(l, "const:")
-			if len(f) > 0 && (f[0] == '_' || f[0] >= 'a' && f[0] <= 'z' || f[0] >= 'A' && f[0] <= 'Z') && strings.Count(f, "%") == 1 {
-				fmtOK = true
+			_, concat := ls["via:concat"]
+			if len(f) > 0 && (f[0] == '_' || f[0] >= 'a' && f[0] <= 'z' || f[0] >= 'A' && f[0] <= 'Z') && (strings.Count(f, "%") == 1 || concat && strings.Count(f, "%") == 0) {
+				fmtOK = true // a format with one verb, or a constant prefix put in front by concatenation
 			} else {
 				okSrc = false
 			}
